@@ -523,7 +523,7 @@ func ruleExpiryPaths(w *core.World, r *core.Report) {
 	bad := ""
 	var badPos token.Pos
 	n := 0
-	core.EnumPathsN(f.Blocks[0], 0, 400000, 2, func(p *core.Path) {
+	core.EnumPathsN(f.Blocks[0], 0, 400000, core.Unroll, func(p *core.Path) {
 		ret, ok := p.End.(*ssa.Return)
 		if !ok || bad != "" {
 			return
@@ -759,7 +759,7 @@ func ruleChunksAppend(w *core.World, r *core.Report) {
 	bad := ""
 	var badPos token.Pos
 	n := 0
-	core.EnumPathsN(f.Blocks[0], 0, 400000, 2, func(p *core.Path) {
+	core.EnumPathsN(f.Blocks[0], 0, 400000, core.Unroll, func(p *core.Path) {
 		if bad != "" {
 			return
 		}
